@@ -36,6 +36,10 @@ def gen_inputs(ck):
                 inputs.append(("tokens", prefix + b"".join(seq)))
     for v in valid[:20 if thorough else 6]:
         add("byte-mutation", G.byte_mutations(v, rng, 2000 if thorough else 300))
+    # every byte value (incl. vertical tab, form feed, NEL, NBSP, NUL, DEL ...) inserted / substituted at every offset
+    small = b"interface a.b\ntype T (a: ?[]int, b: [string](x, y))\n# d\nmethod M(a: T) -> (b: bool)\nerror E (c: string)\n"
+    add("every-byte", G.every_byte_everywhere(small, None if thorough else range(0, len(small) + 1, 3)))
+    add("every-byte", G.every_byte_everywhere(b"interface a.b method M()->()"))
     return inputs
 
 
